@@ -101,6 +101,14 @@ func RestoreFaultPart(run *report.Run, st *Setup, cases, faultsPerCase int, kind
 			for mk := range env.Memo {
 				env.Memo[mk] = "lost"
 			}
+			if r.Chance(1, 2) {
+				// some targets become misses: in minimal mode they are the ones that load the
+				// (possibly faulted) outputs of their dependencies
+				for j := r.Range(1, 3); j > 0; j-- {
+					env.Apply(func() string { return OpSalt(r, env) })
+				}
+				run.Count("fault_builds_with_changed_commands", 1)
+			}
 			env.Logf("fault %s on %v", fkind, victims)
 			p, obs, vs, err := env.Step(BuildOpts{}, cfg, "cache-fault", false)
 			if err != nil {
